@@ -336,6 +336,12 @@ func adapterCase(c, out map[string]interface{}) {
 			} else {
 				dst = &gt.Message{Count: 3, Payload: []byte("keep")}
 			}
+		case "dyn-othertype":
+			if c["type"] == "Message" {
+				dst = toDyn(&httpgrpc.HttpTrailer{Code: 3, Message: "keep"})
+			} else {
+				dst = toDyn(&gt.Message{Count: 3, Payload: []byte("keep")})
+			}
 		default:
 			dst = &nonProto{X: 4, B: []byte("np")}
 		}
